@@ -150,6 +150,14 @@ class CountFeatureCompressionTransformer(BaseEstimator, TransformerMixin):
         rescaled_data = scipy.sparse.csr_matrix(normed_data)
         rescaled_data.data = np.power(normed_data.data, self.rescaling_power)
 
-        result = (rescaled_data @ self.components_.T) / self.component_scaling_
+        # a component whose singular value is zero up to rounding carries nothing (fit_transform gives ~0 there):
+        # dividing by it would turn 0 / 0 into NaN or blow rounding noise up to O(1)
+        negligible = np.sqrt(np.finfo(np.float64).eps * max(self.components_.shape)) * np.max(
+            self.component_scaling_
+        )
+        safe_scaling = np.where(
+            self.component_scaling_ > negligible, self.component_scaling_, 1.0
+        )
+        result = (rescaled_data @ self.components_.T) / safe_scaling
 
         return result
